@@ -2,6 +2,8 @@
 
 from __future__ import annotations
 
+import inspect
+
 from typing import TYPE_CHECKING, Any
 
 from hypergraph.runners._shared.helpers import (
@@ -44,8 +46,10 @@ class SyncFunctionNodeExecutor:
         # Call the function
         result = node.func(**func_inputs)
 
-        # Handle generators - accumulate to list
-        if node.is_generator:
+        # Handle generators - accumulate to list. A plain function that returns a
+        # generator object is treated like a generator function, as the async
+        # executor does (it inspects the returned value).
+        if node.is_generator or inspect.isgenerator(result):
             result = list(result)
 
         return wrap_outputs(node, result)
